@@ -89,10 +89,18 @@ def apply_fault(spec, cols):
     import numpy as np
     f = spec["fault"]
     k = f["kind"]
-    if k in ("nan", "inf", "neginf"):
-        v = {"nan": float("nan"), "inf": float("inf"), "neginf": float("-inf")}[k]
-        cols[f["col"]] = cols[f["col"]].copy()
-        cols[f["col"]][fault_row(spec)] = v
+    if k in ("nan", "inf", "neginf", "objnone", "objnan"):
+        # "objnone" / "objnan": the same missing value in another REPRESENTATION - a column of python objects (what pandas
+        # makes of a column holding None, Decimal or mixed values); file sources cannot hold such a column: plain NaN there
+        v = {"nan": float("nan"), "inf": float("inf"), "neginf": float("-inf"), "objnone": None, "objnan": float("nan")}[k]
+        col = cols[f["col"]].copy()
+        if k in ("objnone", "objnan"):
+            if spec.get("source", "frame") == "frame":
+                col = col.astype(object)
+            else:
+                v = float("nan")
+        col[fault_row(spec)] = v
+        cols[f["col"]] = col
     elif k == "idneg":
         cols["pid"] = cols["pid"].copy()
         cols["pid"][fault_row(spec)] = -1
